@@ -10,6 +10,7 @@
 struct St
 {
     int body_done = 0, joined = 0, finished = 0, go = 0, in_join = 0;
+    int exit_cb_runs = 0, exit_cb_registered = 0;
     int phase = 0, interrupted_phase = -1, sibling_done = 0;
 };
 static St* g;
@@ -21,13 +22,15 @@ static void on_stuck()
 
 enum Body { B_RETURN, B_YIELD2, B_WAIT_FLAG, B_SPAWN_CHILD, NBODY };
 // creator task creates a pika::thread; JOINER 0: the creator joins, 1: another task joins (handle handed over)
-template <int JOINER>
+// EXITCB 1: the thread function registers an exit callback for itself (pika::threads::detail::add_thread_exit_callback);
+// join() must return, after the callback ran exactly once
+template <int JOINER, int EXITCB = 0>
 static void join_prog()
 {
     static St s;
     s = St{};
     g = &s;
-    int body = pmc_choose(NBODY, 0);
+    int body = EXITCB ? B_RETURN : pmc_choose(NBODY, 0);
     pmc_on_stuck(on_stuck);
     static pika::thread* th;
     th = nullptr;
@@ -35,7 +38,12 @@ static void join_prog()
     rt::spawn([&, body] {
         rt::watch_self("creator");
         th = new pika::thread([&, body] {
-            rt::watch_self_full("target");
+            if (EXITCB) rt::watch_self("target"); else rt::watch_self_full("target");
+            if (EXITCB)
+                s.exit_cb_registered = pika::threads::detail::add_thread_exit_callback(pika::threads::detail::get_self_id(), [] {
+                    pmc_point("in-exit-callback");    // an exit callback has a duration
+                    ++g->exit_cb_runs;
+                });
             switch (body)
             {
             case B_RETURN: break;
@@ -54,6 +62,7 @@ static void join_prog()
             th->join();
             s.in_join = 0;
             PMC_ASSERT(s.body_done, "join-early", "join() returned before the thread function returned");
+            if (EXITCB) PMC_ASSERT(s.exit_cb_runs >= 1, "join-early", "join() returned before the thread's exit callback ran");
             PMC_ASSERT(!th->joinable(), "joinable", "joinable() still true after join");
             bool threw = false;
             try { th->join(); } catch (pika::exception const& e) { threw = e.get_error() == pika::error::invalid_status; }
@@ -80,6 +89,7 @@ static void join_prog()
     rt::stop();
     PMC_ASSERT(s.joined == 1 && s.body_done == 1, "join-lost", "joined=%d body_done=%d", s.joined, s.body_done);
     PMC_ASSERT(s.finished == 1 + JOINER, "task-lost", "%d bodies finished", s.finished);
+    if (EXITCB) PMC_ASSERT(s.exit_cb_registered && s.exit_cb_runs == 1, "exit-callback-count", "the exit callback the thread registered for itself ran %d times (registered: %d)", s.exit_cb_runs, s.exit_cb_registered);
     pmc_outcome("body=%d", body);
 }
 
@@ -337,9 +347,13 @@ int main(int argc, char** argv)
 {
     static const char* sites = "thread_data::(add_thread_exit_callback|run_thread_exit_callbacks|free_thread_exit_callbacks)|pika::thread::(join|start_thread|thread_function_nullary)|run_thread_exit_callbacks|set_thread_state|set_active_state|interrupt_thread|stop_state::";
     static const char* focus = "F-addr: creator/joiner state words, whole thread_data of the target; F-site: exit-callback registration/run, thread::join, set_thread_state, interrupt_thread, stop_state";
+    static const char* xsites = "thread_data::(add_thread_exit_callback|run_thread_exit_callbacks)|pika::thread::join";
+    static const char* xfocus = "F-addr: state words of creator/joiner/target; F-site: exit-callback registration and run, thread::join; harness point inside the exit callback";
     static const pmc_spec specs[] = {
         {"join_by_creator", join_prog<0>, 1, 2, 0.3, 0.3, 1, focus, sites, nullptr},
         {"join_by_other_task", join_prog<1>, 1, 2, 0.2, 0.25, 1, focus, sites, nullptr},
+        {"join_with_exit_callback", join_prog<0, 1>, 2, 3, 0.3, 0.15, 1, xfocus, xsites, nullptr},
+        {"join_with_exit_callback_other", join_prog<1, 1>, 2, 3, 0.3, 0.15, 1, xfocus, xsites, nullptr},
         {"detach_selfjoin", misc_prog, 1, 2, 0.1, 0.1, 1, focus, sites, nullptr},
         {"jthread_destructor", jthread_prog, 1, 2, 0.2, 0.15, 1, focus, sites, nullptr},
         {"interrupt", interrupt_prog, 1, 2, 0.2, 0.2, 1, focus, sites, nullptr},
